@@ -410,3 +410,5 @@ func propC07() Prop[C07Case] {
 func TestC07(t *testing.T) { Run(t, propC07()) }
 
 func FuzzGenC07(f *testing.F) { RunFuzz(f, propC07()) }
+
+func TestRaceC07(t *testing.T) { RunConcurrent(t, propC07(), 4) }
